@@ -347,9 +347,11 @@ impl AggregateExecutionEngine {
                 }
                 _ => {
                     for subgroups in self.group_values.values() {
-                        if let Some(group_value) = subgroups.get(&aggregate_index) {
-                            result_column.push(transform_value(group_value.clone())?);
-                        }
+                        // A group without an entry for this aggregate got no (non-null) input for it.
+                        let group_value = subgroups.get(&aggregate_index)
+                            .cloned()
+                            .unwrap_or_else(|| empty_aggregate_value(&aggregate.aggregate));
+                        result_column.push(transform_value(group_value)?);
                     }
                 }
             }
@@ -603,6 +605,14 @@ impl GroupAggregator {
     }
 }
 
+// The value of an aggregate over a group in which it got no (non-null) input.
+fn empty_aggregate_value(aggregate: &Aggregate) -> Value {
+    match aggregate {
+        Aggregate::Count(_, _) => Value::Int(0),
+        _ => Value::Null
+    }
+}
+
 fn extract_having_aggregates<'a>(aggregate_statement: &'a AggregateStatement) -> ExecutionResult<Vec<(usize, &'a Aggregate)>> {
     let mut having_aggregates = Vec::new();
     if let Some(having) = aggregate_statement.having.as_ref() {
@@ -632,6 +642,8 @@ fn accept_group<'a>(group_key_mapping: &HashMap<ExpressionTreeHash, usize>,
                     having: &ExpressionTree) -> ExecutionResult<bool> {
     let mut group_key_columns = HashMap::new();
     let mut group_value_columns = HashMap::new();
+    let mut having_names = Vec::new();
+    let mut having_values = Vec::new();
 
     for (group_key_part, group_key_part_index) in group_key_mapping {
         group_key_columns.insert(
@@ -645,10 +657,17 @@ fn accept_group<'a>(group_key_mapping: &HashMap<ExpressionTreeHash, usize>,
         aggregate.hash(&mut hasher);
         let hash = hasher.finish();
 
-        group_value_columns.insert(
-            format!("{}_{}", aggregate_id, hash),
-            &group_value[&(aggregate_statement.aggregates.len() + having_aggregate_index)]
+        having_values.push(
+            group_value
+                .get(&(aggregate_statement.aggregates.len() + having_aggregate_index))
+                .cloned()
+                .unwrap_or_else(|| empty_aggregate_value(aggregate))
         );
+        having_names.push(format!("{}_{}", aggregate_id, hash));
+    }
+
+    for (name, value) in having_names.into_iter().zip(having_values.iter()) {
+        group_value_columns.insert(name, value);
     }
 
     let mut columns = HashMap::new();
